@@ -164,6 +164,10 @@ type Env struct {
 	OnGen func(p *Peer)
 	// DialErr, if it returns non-nil for attempt n, makes that dial fail.
 	DialErr func(n int) error
+	// AfterStart, if set, runs at the end of every tr.Start (n counts the Starts of this
+	// connection, from 1), before Start returns to Open / the reconnect loop: it may block, which
+	// holds that caller "inside tr.Start" after the generation it published came up.
+	AfterStart func(n int, err error)
 	// DialGate, if set, is called at the start of every dial attempt (it may block: the reconnect
 	// loop is then provably running). Attempts counts every dial attempt.
 	DialGate func(gen int)
@@ -297,6 +301,13 @@ func NewEnv(o Options) (*Env, error) {
 	e.Conn = conn
 	if e.Core == nil || !hsms.VerifSetSendHooks(e.Core, e.afterWriteLock, nil) {
 		return nil, errors.New("genx: cannot install send hooks")
+	}
+	if !hsms.VerifGateTransportStart(e.Core, func(n int, err error) {
+		if f := e.AfterStart; f != nil {
+			f(n, err)
+		}
+	}) {
+		return nil, errors.New("genx: cannot install the start gate")
 	}
 	conn.AddDataMessageHandler(func(msg *hsms.DataMessage, ep hsms.SECS2Endpoint) { e.HandlerCalls.Add(1) })
 	return e, nil
